@@ -1,7 +1,8 @@
 (* C09 - A new SKR is released only if KSK publish and retire safety hold at the boundary. *)
 From Coq Require Import String.
 From KV Require Import Base.Prelude Base.Exn Base.Bytes Model.Data Model.KsrPolicy Model.Chain Spec.ChainRules
-  Proofs.ChainProofs Proofs.Bridge05 Proofs.Bridge08.
+  Proofs.ChainProofs Proofs.Bridge05 Proofs.Bridge08 Model.Keymaster Model.Pipeline Proofs.PipelineProofs Proofs.ReleaseSafety Proofs.Bridge03.
+From KV Require Gen.Pipeline.
 
 Theorem C09_safety_iff : forall p last_skr new_skr,
   check_last_skr_and_new_skr p last_skr new_skr = OK tt <-> safety_spec p last_skr new_skr.
@@ -20,3 +21,20 @@ Theorem C09_gen_order_guards :
   guard_row "check_retire_safety" = Some ("check_keys_retire_safety"%string, 0, 1).
 Proof. exact gen_safety_order_guards. Qed.
 Print Assumptions C09_gen_order_guards.
+
+(* the ceremony: the write stage of ksrsigner is reached only if the safety rules hold for (previous SKR, freshly signed SKR) *)
+Theorem C09_released_only_if_safe : forall e p last_skr new_skr,
+  safety_is e p last_skr new_skr -> In SWrite (fst (run e)) -> safety_spec p last_skr new_skr.
+Proof. exact released_only_if_safe. Qed.
+Print Assumptions C09_released_only_if_safe.
+
+Theorem C09_unsafe_is_not_released : forall e p last_skr new_skr,
+  safety_is e p last_skr new_skr -> ~ safety_spec p last_skr new_skr ->
+  ~ In SWrite (fst (run e)) /\ snd (run e) <> RTrue /\ exit_status (snd (run e)) <> 0.
+Proof. exact unsafe_is_not_released. Qed.
+Print Assumptions C09_unsafe_is_not_released.
+
+Theorem C09_stage_order_is_the_sources :
+  Gen.Pipeline.ksrsigner_stages = (flat_map marker (map st_stage (steps some_env)) ++ ["return True"%string])%list.
+Proof. exact gen_stage_order. Qed.
+Print Assumptions C09_stage_order_is_the_sources.
